@@ -89,6 +89,7 @@ class TlcJobs:
             "design": ("TableText", f"MC_Table_text_design_{tier}.cfg", w, True),
             "io": ("TableText", f"MC_Table_text_io_{tier}.cfg", 4, True),
             "object": ("TableObject", f"MC_Table_object_{tier}.cfg", 4, True),
+            "long": ("Table", f"MC_Table_long_{tier}.cfg", 1, True),
         }
         self.pool = ThreadPoolExecutor(len(self.specs))
         self.futs = {name: self.pool.submit(self._job, name) for name in self.specs}
@@ -121,6 +122,7 @@ def check(run: Run):
     from cogent3 import load_table, make_table  # noqa: F401
     import cogent3.format.table  # noqa: F401
     import cogent3.maths.stats.number  # noqa: F401
+    import long_C20
     import object_C20
     import text_C20
 
@@ -144,6 +146,7 @@ def check(run: Run):
                 total += n
             total += text_C20.check_text(run, stats, replay, jobs)
             total += object_C20.check_object(run, stats, jobs)
+            total += long_C20.check_long(run, stats, jobs)
         finally:
             jobs.close()
     run.note("groups", stats)
